@@ -75,6 +75,33 @@ fn build_archive(path: &Path, key: &str, seed: u64) -> Vec<String> {
     names
 }
 
+/// Generation g of the archive that lives at ONE path: other contents for every file, files with i % 5 == g are
+/// absent, and each generation has three files of its own.
+fn build_generation(path: &Path, g: usize, seed: u64) -> Vec<String> {
+    let mut b = ArchiveBuilder::new();
+    let mut names = Vec::new();
+    for i in 0..45usize {
+        if i % 5 == g {
+            continue;
+        }
+        let mut rng = Rng::derive(seed, &format!("c09-G{g}-{i}"));
+        let name = format!("Gen\\file_{i:03}.dat");
+        let len = 40 + rng.below(300) as usize;
+        b = b.add_file_data_with_options(gen_content(if i % 2 == 0 { "random" } else { "text" }, len, &mut rng), &name, if i % 3 == 0 { 0 } else { 0x02 }, i % 7 == 0, 0);
+        names.push(name);
+    }
+    for k in 0..3 {
+        let mut rng = Rng::derive(seed, &format!("c09-G{g}-own-{k}"));
+        let name = format!("Gen\\only_in_{g}_{k}.dat");
+        b = b.add_file_data(rng.bytes(64 + 10 * k), &name);
+        names.push(name);
+    }
+    b.build(path).unwrap_or_else(|e| tool_error(&format!("building generation {g}: {e}")));
+    names
+}
+
+const GENERATIONS: usize = 3;
+
 fn build_world(dir: &Path, seed: u64, intern: &mut Interner) -> WorldX {
     let mut arch = HashMap::new();
     let mut ids = HashMap::new();
@@ -97,6 +124,15 @@ fn build_world(dir: &Path, seed: u64, intern: &mut Interner) -> WorldX {
         let base = seqtok.len() + 1;
         seq_read(&path, key, &files, &mut ids, &mut seqtok);
         arch.insert(key.to_string(), Arch { path, files, base });
+    }
+    // the generations of G: each is written to THE path, read sequentially there (the reference), then replaced
+    let gpath = dir.join("G.mpq");
+    for g in 0..GENERATIONS {
+        let files = build_generation(&gpath, g, seed);
+        let key = format!("G{g}");
+        let base = seqtok.len() + 1;
+        seq_read(&gpath, &key, &files, &mut ids, &mut seqtok);
+        arch.insert(key, Arch { path: gpath.clone(), files, base });
     }
     let mut multi = Vec::new();
     for i in 0..6 {
@@ -146,8 +182,24 @@ fn yield_hook(_tag: &'static str) {
     });
 }
 
+/// One thread pool per thread count, kept for the whole driver run: worker threads -- and anything they keep in
+/// thread-locals -- survive from call to call and across replacements of an archive, as in a real process.
 fn in_pool<T: Send>(t: usize, f: impl FnOnce() -> T + Send) -> T {
-    rayon::ThreadPoolBuilder::new().num_threads(t).build().unwrap_or_else(|e| tool_error(&format!("pool: {e}"))).install(f)
+    static POOLS: std::sync::Mutex<Vec<(usize, std::sync::Arc<rayon::ThreadPool>)>> = std::sync::Mutex::new(Vec::new());
+    let pool = {
+        let mut g = POOLS.lock().unwrap();
+        match g.iter().find(|(n, _)| *n == t) {
+            Some((_, p)) => p.clone(),
+            None => {
+                let p = std::sync::Arc::new(
+                    rayon::ThreadPoolBuilder::new().num_threads(t).build().unwrap_or_else(|e| tool_error(&format!("pool: {e}"))),
+                );
+                g.push((t, p.clone()));
+                p
+            }
+        }
+    };
+    pool.install(f)
 }
 
 // ---- one configuration -----------------------------------------------------------------------
@@ -158,8 +210,8 @@ struct Obs {
     toks: Vec<u32>,
 }
 
-fn request(w: &WorldX, c: &Value, rng: &mut Rng) -> (Vec<String>, Vec<usize>) {
-    let a = &w.arch[gs(c, "arch")];
+fn request(w: &WorldX, c: &Value, key: &str, rng: &mut Rng) -> (Vec<String>, Vec<usize>) {
+    let a = &w.arch[key];
     let n = gi(c, "n") as usize;
     let off = rng.below(a.files.len() as u64) as usize;
     let stride = if rng.chance(1, 2) { 1 } else { 7 };
@@ -179,13 +231,23 @@ fn request(w: &WorldX, c: &Value, rng: &mut Rng) -> (Vec<String>, Vec<usize>) {
     for i in miss {
         names[i] = format!("missing\\file_{i}.bin");
     }
-    let key = gs(c, "arch").to_string();
+    if gs(c, "miss") == "gone" && n > 0 {
+        // a name the previous generation of this path had and the current one has not
+        if let Some(g) = key.strip_prefix('G').and_then(|x| x.parse::<usize>().ok()) {
+            let prev = &w.arch[&format!("G{}", (g + GENERATIONS - 1) % GENERATIONS)];
+            if let Some(nm) = prev.files.iter().find(|f| !a.files.contains(f)) {
+                names[n / 2] = nm.clone();
+            }
+        }
+    }
+    let key = key.to_string();
     let ids = names.iter().map(|s| w.ids.get(&(key.clone(), s.clone())).copied().unwrap_or(0)).collect();
     (names, ids)
 }
 
 fn name_id(w: &WorldX, key: &str, s: &str) -> i64 {
-    w.ids.get(&(key.to_string(), s.to_string())).map(|&x| x as i64).unwrap_or(if s.starts_with("missing\\") { 0 } else { -1 })
+    // a name that is not in this archive (generation) has id 0, like the "missing" names of the requests
+    w.ids.get(&(key.to_string(), s.to_string())).map(|&x| x as i64).unwrap_or(0)
 }
 
 /// one slot per chain entry in chain order (named by the archive's own file, read through the chain), then one
@@ -215,9 +277,9 @@ fn chain_slots(w: &WorldX, chain: &mut wow_mpq::PatchChain, tokid: &dyn Fn(&[u8]
     (names, toks)
 }
 
-fn run_once(w: &WorldX, c: &Value, names: &[String], intern: &std::sync::Mutex<Interner>) -> Obs {
+fn run_once(w: &WorldX, c: &Value, key: &str, names: &[String], intern: &std::sync::Mutex<Interner>) -> Obs {
     let iface = gs(c, "iface").to_string();
-    let key = gs(c, "arch").to_string();
+    let key = key.to_string();
     let t = gi(c, "t") as usize;
     let b = gi(c, "b") as usize;
     let skip = gb(c, "skip");
@@ -334,7 +396,7 @@ fn main() {
         }
         let mut since = usize::MAX;
         for (ci, c) in cases.iter().enumerate() {
-            if gs(c, "kind") != "cfg" {
+            if gs(c, "kind") != "cfg" || gs(c, "arch") == "G" {
                 continue;
             }
             let big = gi(c, "n") > 500;
@@ -408,7 +470,7 @@ fn main() {
                     let ids = names.iter().map(|s| w.ids[&(gs(c, "arch").to_string(), s.clone())]).collect();
                     (names, ids)
                 }
-                _ => request(&w, c, &mut rng),
+                _ => request(&w, c, gs(c, "arch"), &mut rng),
             };
             let runs = if big { 2 } else { runs };
             for run in 0..runs {
@@ -419,7 +481,7 @@ fn main() {
                 // watchdog without 'static: run on a scoped thread and wait with a timeout
                 let (tx, rx) = std::sync::mpsc::channel();
                 let h = s.spawn(move || {
-                    let o = run_once(w2, &c2, &names2, intern2);
+                    let o = run_once(w2, &c2, gs(&c2, "arch"), &names2, intern2);
                     let _ = tx.send(o);
                 });
                 let o = match rx.recv_timeout(Duration::from_secs(300)) {
@@ -430,13 +492,48 @@ fn main() {
                     Err(_) => Obs { call: "hang".into(), names: vec![], toks: vec![] },
                 };
                 trace.ev(json!({"ev":"Par","case":case,"iface":iface,"arch":gs(c,"arch"),"t":gi(c,"t"),"b":gi(c,"b"),
-                    "n":gi(c,"n"),"skip":gb(c,"skip"),"miss":gs(c,"miss"),"dup":gs(c,"dup"),"run":run,
+                    "n":gi(c,"n"),"skip":gb(c,"skip"),"miss":gs(c,"miss"),"dup":gs(c,"dup"),"run":run,"gen":0,
                     "req":chunked(&ids),"call":o.call,"names":chunked(&o.names),"toks":chunked(&o.toks)}));
                 since += 1;
                 if o.call == "hang" {
                     trace.flush();
                     stop.store(true, Ordering::Relaxed);
                     std::process::exit(0); // a hung call cannot be joined; the trace says so
+                }
+            }
+        }
+        // ---- generations: one path, successive archives, the same process and the same pools ------------------
+        let gcases: Vec<usize> = (0..cases.len()).filter(|&i| gs(&cases[i], "kind") == "cfg" && gs(&cases[i], "arch") == "G").collect();
+        if !gcases.is_empty() {
+            let gpath = w.arch["G0"].path.clone();
+            for round in 0..(GENERATIONS + 1) {
+                let g = round % GENERATIONS; // 0, 1, 2 and back to 0: every generation is entered from another one
+                build_generation(&gpath, g, seed);
+                let key = format!("G{g}");
+                trace.ev(reset(&format!("gen{round}:reset")));
+                for &ci in &gcases {
+                    let c = &cases[ci];
+                    let iface = gs(c, "iface");
+                    let case = format!("{ci}:{iface}:G:gen{g}");
+                    let mut rng = Rng::derive(seed, &format!("c09-case-{ci}-g{g}"));
+                    let (names, ids): (Vec<String>, Vec<usize>) = if iface == "matching" {
+                        let ar = &w.arch[&key];
+                        let (m, r) = (gi(c, "n") as usize, gi(c, "b") as usize);
+                        let names: Vec<String> = ar.files.iter().enumerate().filter(|(i, _)| i % m == r % m).map(|(_, s)| s.clone()).collect();
+                        let ids = names.iter().map(|s| w.ids[&(key.clone(), s.clone())]).collect();
+                        (names, ids)
+                    } else {
+                        request(&w, c, &key, &mut rng)
+                    };
+                    for run in 0..2 {
+                        let o = match guarded(|| run_once(&w, c, &key, &names, &intern)) {
+                            Outcome::Done(o) => o,
+                            _ => Obs { call: "panic".into(), names: vec![], toks: vec![] },
+                        };
+                        trace.ev(json!({"ev":"Par","case":case,"iface":iface,"arch":"G","t":gi(c,"t"),"b":gi(c,"b"),
+                            "n":gi(c,"n"),"skip":gb(c,"skip"),"miss":gs(c,"miss"),"dup":gs(c,"dup"),"run":run,"gen":round,
+                            "req":chunked(&ids),"call":o.call,"names":chunked(&o.names),"toks":chunked(&o.toks)}));
+                    }
                 }
             }
         }
